@@ -58,7 +58,7 @@ func (g *gen) runGroup(base *Case) {
 	}
 	if base.Lane != "inproc" {
 		// start the server and the shared clients before the race
-		if srv, err := g.e.server(base.Limit, base.Frag); err == nil {
+		if srv, err := g.e.server(base.Limit, base.Frag, base.SrvOpt); err == nil {
 			cl := clientsFor(srv)
 			if base.Lane == "grpc-go" {
 				cl.grpcConn(srv)
